@@ -1,5 +1,6 @@
 """Property id -> check function."""
 import p_codec
+import p_session
 
 CHECKS = {
     "C01": p_codec.check_C01,
@@ -8,6 +9,13 @@ CHECKS = {
     "C18": p_codec.check_C18,
     "C03": p_codec.check_C03,
     "C11": p_codec.check_C11,
+    "C06": p_session.check_C06,
+    "C07": p_session.check_C07,
+    "C16": p_session.check_C16,
+    "C14": p_session.check_C14,
+    "C10": p_session.check_C10,
+    "C15": p_session.check_C15,
+    "C19": p_session.check_C19,
 }
 
 
